@@ -274,8 +274,9 @@ func intrWgWait(c *Ctx, st *State, fr *Frame, ins ssa.Instruction, f *ssa.Functi
 	wg := c.toTerm(st, args[0])
 	w := c.Arr(st, "Waited", ArraySort(SInt, SBool))
 	c.SetArr(st, "Waited", Store(w, wg, True))
-	if len(st.heldLocks) > 0 {
-		c.emit(st, fr, ins, "nonblocking", "wait-under-lock", False, "WaitGroup.Wait while holding a lock", false)
+	{
+		h := c.Arr(st, famHeld, ArraySort(SInt, SBool))
+		c.emit(st, fr, ins, "nonblocking", "wait-under-lock", Eq(h, ConstArray(ArraySort(SInt, SBool), False)), "WaitGroup.Wait is not called while holding a lock", false)
 	}
 	if res != nil {
 		fr.regs[res] = Tuple{}
